@@ -1,8 +1,8 @@
 package main
 
 import (
-	rio "github.com/pip-services3-gox/pip-services3-expressions-gox/io"
 	"fmt"
+	rio "github.com/pip-services3-gox/pip-services3-expressions-gox/io"
 	"strings"
 	"time"
 
